@@ -69,15 +69,29 @@ class Eng:
         fac = (factory.YaqlFactory if kind == 'default' else legacy.YaqlFactory)(allow_delegates=delegates)
         self.base = [list(r) for r in fac.operators]
         self.steps = []
+        # a factory with a history: engines were created from it BEFORE (some of) the inserts; the engine under test
+        # is the one created afterwards and must follow the table as it is then
+        hfac = None
+        if any(i.get('created') for i in self.inserts):
+            hfac = (factory.YaqlFactory if kind == 'default' else legacy.YaqlFactory)(allow_delegates=delegates)
         for ins in self.inserts:
+            if hfac is not None and ins.get('created'):
+                hfac.create()
             try:
                 fac.insert_operator(ins['ex'], ins['bin'], ins['sym'], ins['ty'], ins['cg'], ins['alias'])
                 self.steps.append([list(r) for r in fac.operators])
             except ValueError:
                 self.steps.append(None)
+            if hfac is not None:
+                try:
+                    hfac.insert_operator(ins['ex'], ins['bin'], ins['sym'], ins['ty'], ins['cg'], ins['alias'])
+                except ValueError:
+                    pass
         self.fac = fac
         self.records = [tuple(r) for r in fac.operators]
         self.engine, self.cap = optables.capture(fac)
+        if hfac is not None:
+            self.engine = hfac.create()
         self.table = self.cap['table'].operators          # sym -> (up, bp, name, alias)
         self.name2sym = {v[2]: k for k, v in self.table.items()}
         # group data of the operator list (the property's vocabulary)
@@ -103,7 +117,8 @@ class Eng:
 
     def label(self):
         return '%s%s%s' % (self.kind, '+delegates' if self.delegates else '',
-                           ''.join(' ins(%s,%s,%s,%s,%s)' % (i['ex'], i['bin'], i['sym'], i['ty'][:8], i['cg'])
+                           ''.join(' %sins(%s,%s,%s,%s,%s)' % ('create() ' if i.get('created') else '', i['ex'], i['bin'],
+                                                                i['sym'], i['ty'][:8], i['cg'])
                                    for i in self.inserts))
 
 
@@ -754,6 +769,8 @@ def rand_inserts(rng, kind, delegates, homogeneous, nmax=5):
                 if not all(homogeneous_group(k) for k in kinds.values()):
                     continue
             fac.insert_operator(ins['ex'], ins['bin'], ins['sym'], ins['ty'], ins['cg'], ins['alias'])
+            if rng.random() < 0.25:
+                ins['created'] = True       # the factory had already produced an engine when this insert was made
             out.append(ins)
             break
     return out
